@@ -3,7 +3,9 @@
 Case kinds (same JSON goes to `lean/Drivers/Formula.lean`):
   tokenize : {"kind","s"}                              real: list(Tokenizer(s))
   build    : {"kind","toks"}                           real: FormulaBuilder.push_* + finalize -> step reprs
-  run      : {"kind","toks","rounds"}                  real: FormulaBuilder(...).build() engine fed through Broadcast channels
+  run      : {"kind","toks","rounds"[,"ast"]}          real: FormulaBuilder(...).build() engine fed through Broadcast channels
+             ("ast" = the expression tree the fully parenthesised token stream was rendered from, incl. clip nodes
+             ["clip",[lo,hi],a]: the reference of the oracle; the Lean driver ignores it)
   string   : {"kind","s","z","zids","rounds"}          real: ResampledFormulaBuilder.from_string (per-id flags: same loop
                                                              with push_component_metric(id, nones_are_zeros=flag(id)))
   ho       : {"kind","tree","z","rounds"[,"prog"]}     real: level-1 engines composed with the Python operators/methods,
@@ -11,6 +13,9 @@ Case kinds (same JSON goes to `lean/Drivers/Formula.lean`):
              "tree" is the expression as written (a value); "prog" (optional) says how it is written in Python with
              builder OBJECTS bound to variables and reused: [{"let": node} | {"drop": node} …, {"ret": node}], where a node
              may be {"var": k} (the k-th let) wherever a builder may stand; "drop" = an operation whose result is thrown away.
+Optional "backlog": {"<id>": [[ts, value], ...]} (string / run kinds): samples OLDER than the first round that already
+wait in the input streams when the engine starts (streams whose source started earlier); the engine must drop them while
+it synchronises, so the expected output is still one sample per round.  The Lean driver ignores the key.
 All engines run on ONE `async_solipsism` loop per batch (virtual clock).  A round = one sample per input stream,
 all of one timestamp; the engine's answer is awaited with a (virtual) timeout — no answer = the sample was dropped.
 Values: rationals as strings; inputs restricted so that every float operation of the real run is exact.
@@ -127,6 +132,14 @@ def arith(a: Any, val: dict[int, Fraction]) -> Fraction:
     if a[0] == "un":
         v = arith(a[2], val)
         return max(v, Fraction(0)) if a[1] == "consumption" else max(-v, Fraction(0))
+    if a[0] == "clip":
+        v = arith(a[2], val)
+        lo, hi = a[1]
+        if lo is not None:
+            v = max(v, Fraction(lo))
+        if hi is not None:
+            v = min(v, Fraction(hi))
+        return v
     _, op, l, r = a
     x = arith(l, val)
     y = arith(r, val)
@@ -185,7 +198,7 @@ def ho_ast(t: dict) -> Any:
 # ======================================================================= exactness of a float run
 def _dyadic(x: Fraction) -> bool:
     d = x.denominator
-    return d & (d - 1) == 0 and d <= 2 ** 20 and abs(x.numerator) < 2 ** 40
+    return d & (d - 1) == 0 and d <= 2 ** 60 and abs(x.numerator) < 2 ** 40
 
 
 def postfix_exact(steps: list[str], env: dict[str, Any]) -> bool:
@@ -343,10 +356,16 @@ def exhaustive_strings(max_ops: int, ids: list[str]):
 VALUE_POOL = [0, 0, 1, -1, 2, -2, 3, 4, -4, 8, Fraction(1, 2), Fraction(-1, 2), Fraction(1, 4), 16, 5, -3, 6, 10]
 
 
+TINY = Fraction(1, 2 ** 40)          # 9.1e-13: non-zero, far below any "close to zero" tolerance, exact in a double
+TINY_POOL = [TINY, -TINY, 3 * TINY, Fraction(1, 2 ** 31), -Fraction(5, 2 ** 34), 1 + TINY, 1 - TINY, -1 - TINY]
+
+
 def gen_value(rng: random.Random, p_missing: float) -> Any:
     r = rng.random()
     if r < p_missing:
         return rng.choice([None, None, "nan", "inf", "-inf"])
+    if r > 0.96:
+        return rat(rng.choice(TINY_POOL))   # tiny denominators / differences of nearly equal operands
     return rat(Fraction(rng.choice(VALUE_POOL)))
 
 
@@ -521,6 +540,166 @@ def gen_tok_stream(rng: random.Random, ids: list[int], valid: bool) -> list[dict
     return out
 
 
+# ======================================================================= clip steps (push_clipper), tiny denominators, backlogs
+def tree_toks(a: Any, flags: dict[int, bool]) -> list[dict]:
+    """Render an expression tree as the `push_*` calls of a FULLY PARENTHESISED infix expression (so its meaning does
+    not depend on any precedence); a clip node is `push_clipper` right after its (atomic or parenthesised) operand."""
+    if a[0] == "m":
+        return [{"t": "m", "n": a[1], "z": flags[a[1]]}]
+    if a[0] == "c":
+        return [{"t": "c", "c": a[1]}]
+    if a[0] == "clip":
+        return tree_toks(a[2], flags) + [{"t": "clip", "lo": a[1][0], "hi": a[1][1]}]
+    if a[0] == "bin":
+        return [{"t": "o", "o": "("}] + tree_toks(a[2], flags) + [{"t": "o", "o": a[1]}] + tree_toks(a[3], flags) + \
+               [{"t": "o", "o": ")"}]
+    raise ValueError(a[0])
+
+
+CLIP_BOUNDS = [["0", None], [None, "4"], ["0", "4"], ["-2", "1"], [None, None], ["1", None], [None, "-1"],
+               ["3", "1"]]     # lower > upper: the lower bound is applied first, so the result is the upper bound
+
+
+def clip_case(a: Any, flags: dict[int, bool], rounds: list[dict] | None, gen=None) -> dict:
+    c = {"kind": "run", "toks": tree_toks(a, flags), "ast": a, "rounds": rounds}
+    if gen is not None:
+        c["_gen"] = gen
+    return c
+
+
+def clip_grid() -> list[dict]:
+    """Every bound configuration x {clip of an input, clip of a sum, clip as left / right operand, clip of a clip}
+    x missing encoding x nones_are_zeros flag, plus present operands below / inside / above the range."""
+    cases = []
+    ts = 0
+    for lo, hi in CLIP_BOUNDS:
+        b = [lo, hi]
+        shapes = [
+            (["clip", b, ["m", 1]], [1]),
+            (["clip", b, ["bin", "+", ["m", 1], ["m", 2]]], [1, 2]),
+            (["bin", "+", ["m", 1], ["clip", b, ["m", 2]]], [1, 2]),
+            (["bin", "*", ["clip", b, ["m", 1]], ["m", 2]], [1, 2]),
+            (["bin", "max", ["clip", b, ["bin", "-", ["m", 1], ["m", 2]]], ["c", "1"]], [1, 2]),
+            (["clip", ["-1", "2"], ["clip", b, ["m", 1]]], [1]),
+        ]
+        for a, ids in shapes:
+            for z in (False, True):
+                rounds = []
+                for enc in (None, "nan", "inf", "-inf"):
+                    for pattern in range(1, 1 << len(ids)):
+                        ts += 1
+                        rounds.append({"ts": ts, "env": {str(i): (enc if (pattern >> k) & 1 else ["3", "-5"][k])
+                                                         for k, i in enumerate(ids)}})
+                for vals in (["-5", "1"], ["1/2", "0"], ["8", "-1"], ["0", "0"], ["4", "4"]):
+                    ts += 1
+                    rounds.append({"ts": ts, "env": {str(i): vals[k] for k, i in enumerate(ids)}})
+                cases.append(clip_case(a, {i: z for i in ids}, rounds))
+    return cases
+
+
+def gen_clip_tree(rng: random.Random, ids: list[int], depth: int) -> Any:
+    r = rng.random()
+    if depth <= 0 or r < 0.3:
+        a: Any = ["m", rng.choice(ids)] if rng.random() < 0.85 else ["c", rat(Fraction(rng.choice([0, 1, 2, -3, 4])))]
+    else:
+        a = ["bin", rng.choice(BIN_API), gen_clip_tree(rng, ids, depth - 1), gen_clip_tree(rng, ids, depth - 1)]
+    if rng.random() < 0.35:
+        a = ["clip", rng.choice(CLIP_BOUNDS), a]
+    return a
+
+
+def gen_clip_cases(ctx, n: int, p_missing: float) -> list[dict]:
+    cases = []
+    for i in range(n):
+        rng = ctx.subrng("clip", i)
+        ids = rng.sample([1, 2, 3, 4], rng.randint(2, 3))
+        a = gen_clip_tree(rng, ids, rng.choice([1, 2, 2, 3]))
+        if "clip" not in ast_ops(a):
+            a = ["clip", rng.choice(CLIP_BOUNDS), a]
+        used = sorted(ast_ids(a))
+        if not used:
+            continue
+        flags = {k: rng.random() < 0.35 for k in used}
+        cases.append(clip_case(a, flags, None, gen=(f"{ctx.prop}/{ctx.seed}/cliprounds/{i}", rng.randint(3, 5), p_missing)))
+    return cases
+
+
+def tiny_cases() -> list[dict]:
+    """Divisions whose denominator is tiny but NOT zero (an input of 2^-40, a difference of nearly equal operands): the
+    quotient is finite and exactly representable, so a value must be emitted; exact zeros beside them for contrast."""
+    t, one = rat(TINY), rat(1 + TINY)
+    cases = []
+    r2 = [{"1": rat(3 * TINY), "2": t}, {"1": "1", "2": t}, {"1": t, "2": rat(-TINY)}, {"1": "5", "2": rat(Fraction(1, 2 ** 31))},
+          {"1": "5", "2": "0"}, {"1": "0", "2": t}, {"1": t, "2": t}]
+    r3 = [{"1": "2", "2": one, "3": "1"}, {"1": t, "2": one, "3": "1"}, {"1": "3", "2": "1", "3": one},
+          {"1": "3", "2": "1", "3": "1"}, {"1": "4", "2": t, "3": rat(-TINY)}]
+
+    def rounds(envs):
+        return [{"ts": k + 1, "env": dict(e)} for k, e in enumerate(envs)]
+
+    for z in (False, True):
+        cases.append({"kind": "string", "s": "#1 / #2", "z": z, "zids": [], "rounds": rounds(r2), "tiny": True})
+        cases.append({"kind": "string", "s": "#1 / (#2 - #3)", "z": z, "zids": [], "rounds": rounds(r3), "tiny": True})
+        cases.append({"kind": "string", "s": "#1 + #1 / (#2 - #3)", "z": z, "zids": [], "rounds": rounds(r3), "tiny": True})
+        cases.append({"kind": "ho", "tree": {"b": {"start": 1}, "o": "/", "eng": 2}, "z": z, "rounds": rounds(r2), "tiny": True})
+        cases.append({"kind": "ho", "tree": {"b": {"start": 1}, "o": "/", "r": {"b": {"start": 2}, "o": "-", "eng": 3}},
+                      "z": z, "rounds": rounds(r3), "tiny": True})
+        cases.append({"kind": "ho", "tree": {"b": {"start": 1}, "o": "/", "const": t}, "z": z,
+                      "rounds": rounds([{"1": "3"}, {"1": t}, {"1": "0"}]), "tiny": True})
+        a = ["bin", "/", ["m", 1], ["clip", [None, "1"], ["m", 2]]]
+        cases.append(dict(clip_case(a, {1: z, 2: z}, rounds(r2)), tiny=True))
+    # keep only rounds whose IEEE evaluation is exact (a property of the inputs: float vs rational evaluation of the tree)
+    for c in cases:
+        a = case_ast(c)
+        if c["kind"] == "run":
+            continue
+        keep = []
+        for rd in c["rounds"]:
+            try:
+                want = arith(a, {i: Fraction(rd["env"][str(i)]) for i in ast_ids(a)})
+                got = float_eval(a, rd["env"])
+                exact = math.isfinite(got) and Fraction(got) == want
+            except Undefined:
+                exact = True
+            if exact:
+                keep.append(rd)
+        assert len(keep) >= len(c["rounds"]) - 1, c
+        c["rounds"] = keep
+    return cases
+
+
+def backlog_cases(ctx, n: int) -> list[dict]:
+    """Staggered start: >= 3 input streams; at least two of them already hold samples of the SAME older timestamps when
+    the engine starts, one more may hold a shorter backlog, at least one starts with the first round.  Every value
+    encodes (stream, timestamp), so a sample computed from inputs of different timestamps has the wrong value.
+    Expressions over + - * (integers: exact)."""
+    cases = []
+    for i in range(n):
+        rng = ctx.subrng("backlog", i)
+        k = rng.choice([3, 3, 4])
+        ids = rng.sample([1, 2, 3, 5, 7, 12], k)
+        shape = rng.choice(list(tree_shapes(k - 1)))
+        ops = [rng.choice("+-*") for _ in range(k - 1)]
+        s = shape_to_string(shape, ops, [str(x) for x in ids], rng.random() < 0.3)
+        start = rng.randint(3, 6)
+        depth = rng.randint(1, 3)                      # how many older timestamps the lagging group holds
+        order = ids[:]
+        rng.shuffle(order)
+        lag = order[:rng.randint(2, k - 1)]            # >= 2 streams share the oldest first timestamp
+        rest = order[len(lag):]
+        mid = rest[1:] if (len(rest) > 1 and depth > 1 and rng.random() < 0.6) else []   # a shorter backlog
+
+        def val(stream: int, ts: int) -> str:
+            return rat(Fraction((ids.index(stream) + 1) * 16 + ts))
+
+        backlog = {str(x): [[t, val(x, t)] for t in range(start - depth, start)] for x in lag}
+        for x in mid:
+            backlog[str(x)] = [[t, val(x, t)] for t in range(start - 1, start)]
+        rounds = [{"ts": t, "env": {str(x): val(x, t) for x in ids}} for t in range(start, start + rng.randint(2, 4))]
+        cases.append({"kind": "string", "s": s, "z": rng.random() < 0.3, "zids": [], "rounds": rounds, "backlog": backlog})
+    return cases
+
+
 # ======================================================================= the real code
 def _imports():
     import frequenz.sdk.microgrid  # noqa: F401  (breaks an import cycle of the formula_engine package)
@@ -591,6 +770,14 @@ def _emitted(x: float) -> str:
     return rat(x)
 
 
+async def _send_backlog(case: dict, senders: dict[int, Any]) -> None:
+    """Samples that already wait in the input streams when the engine starts (older than the first round)."""
+    Sample = R()["Sample"]
+    for i, items in sorted((case.get("backlog") or {}).items()):
+        for ts, v in items:
+            await senders[int(i)].send(Sample(T0 + timedelta(seconds=ts), _quantity(v)))
+
+
 async def _feed_and_collect(rx, senders: dict[int, Any], rounds: list[dict]) -> list:
     Sample = R()["Sample"]
     out = []
@@ -651,9 +838,11 @@ async def real_run(case: dict) -> dict:
     if not chans:
         # an engine without inputs spins forever without ever yielding to the loop: not runnable, only compiled
         raise ValueError("run case without a metric")
+    senders = {i: c.new_sender() for i, c in chans.items()}
+    await _send_backlog(case, senders)
     rx = engine.new_receiver()
     await asyncio.sleep(0)
-    out = await _feed_and_collect(rx, {i: c.new_sender() for i, c in chans.items()}, rounds)
+    out = await _feed_and_collect(rx, senders, rounds)
     await engine._stop()  # pylint: disable=protected-access
     return {"steps": steps, "out": out}
 
@@ -703,12 +892,13 @@ async def real_string(case: dict) -> dict:
         # no input stream: the real engine would spin without ever yielding; such a program (operators and
         # parentheses only) can never leave exactly one value on the stack, so nothing is ever emitted
         return {"steps": steps, "out": []}
-    rx = engine.new_receiver()
-    await asyncio.sleep(0)
     senders = {}
     for i in ids:
         name = r["ComponentMetricRequest"]("ns", i, r["ComponentMetricId"].ACTIVE_POWER, None).get_channel_name()
         senders[i] = reg.get_or_create(r["Sample"][r["Quantity"]], name).new_sender()
+    await _send_backlog(case, senders)
+    rx = engine.new_receiver()
+    await asyncio.sleep(0)
     out = await _feed_and_collect(rx, senders, rounds)
     await engine._stop()  # pylint: disable=protected-access
     return {"steps": steps, "out": out}
@@ -864,6 +1054,8 @@ def case_ast(case: dict) -> Any | None:
             return None
     if case["kind"] == "ho":
         return ho_ast(case["tree"])
+    if case["kind"] == "run" and case.get("ast") is not None:
+        return case["ast"]
     return None
 
 
@@ -871,6 +1063,12 @@ def case_zflag(case: dict):
     if case["kind"] == "string":
         z, zids = case["z"], set(case["zids"])
         return lambda i: (not z) if i in zids else z
+    if case["kind"] == "run":
+        first: dict[int, bool] = {}
+        for t in case["toks"]:
+            if t["t"] == "m":
+                first.setdefault(t["n"], t["z"])   # `setdefault` in push_metric: the first flag of a name wins
+        return lambda i: first[i]
     return lambda i: case["z"]
 
 
@@ -879,6 +1077,8 @@ def ast_ops(a: Any) -> list[str]:
         return []
     if a[0] == "un":
         return ast_ops(a[2]) + [a[1]]
+    if a[0] == "clip":
+        return ast_ops(a[2]) + ["clip"]
     return ast_ops(a[2]) + [a[1]] + ast_ops(a[3])
 
 
@@ -905,6 +1105,12 @@ def case_tags(case: dict, a: Any | None) -> tuple[list[str], bool]:
             tags.append("minmax")
         if any(o in ops for o in UN_API):
             tags.append("cons/prod")
+        if "clip" in ops:
+            tags.append("clip")
+        if case.get("backlog"):
+            tags.append("backlog(staggered start)")
+        if case.get("tiny"):
+            tags.append("tiny-denominator")
         if "/" in ops:
             tags.append("division")
         nontrivial = len(ops) >= 2 and len(set(ops)) >= 2
